@@ -4,5 +4,5 @@ cd /verif
 for d in seeded/*/; do
   id=$(basename $d); p=${id%%-*}
   [ -n "$1" ] && [[ ! "$id" =~ $1 ]] && continue
-  echo "=== $id"; /venv/bin/python tools/seedtest.py "$p" "$d" --name "${id#*-}" --skip-confirm 2>&1 | tail -2
+  echo "=== $id"; /venv/bin/python tools/seedtest.py "$p" "$d" --name "${id#*-}" --skip-confirm $SEEDTEST_OPTS 2>&1 | tail -2
 done
